@@ -6,7 +6,7 @@
 
 extern "C" {
 int ob_init(void); int ob_exists(int); int ob_cls(int); int ob_make(int, int, int, const char *, int); const char *ob_read(int); const char *ob_clsname(int);
-int ob_set_level(int); long ob_tracker_count(void); int ob_dup(int, int); int ob_del(int); int ob_done(int); int ob_type_ok(int); int ob_mutate(int, int, const char *);
+int c06_refused(int, int, const char *); int c06_drain_refill(int, int, const char *); int ob_set_level(int); long ob_tracker_count(void); int ob_dup(int, int); int ob_del(int); int ob_done(int); int ob_type_ok(int); int ob_mutate(int, int, const char *);
 int c06_move(int, int, const char *, int); int c06_sub(int, int, int, int); int c06_sub_ptr(int, int, int); int c06_to_array(int); int c06_getlist(int, int, int, int);
 int c06_iter(int, int); int c06_overwrite(int, const char *); int c06_reinit(int); int c06_url_set(int, int, const char *); int c06_tok_eval(int);
 }
@@ -67,6 +67,14 @@ struct Interp {
             ctx.label(std::string("make:") + ob_clsname(cls));
             return;
         }
+        if (n == "refused") {
+            if (oracle == 1) return;   // on the tracking build the runtime level is 5, where a refused argument is fatal by design (C16)
+            int kind = (int)(op.i(1) & 1);
+            int r = LA(c06_refused(kind, a, W(op).c_str()));
+            VT_CHECK(ctx, r != -1, "mismatch", "refused-construction-accepted; kind " << kind << " (pair from (key,NULL) / (NULL,value)) was accepted");
+            if (r == 1) ctx.label("edge:refused-construction");   // whatever it allocated on the way must be gone at the end (heap balance)
+            return;
+        }
         // type-specific ops look for a slot holding a suitable class (starting at a); if there is none, one is made
         auto want = [&](const std::string &op_name, int cls) {
             if (op_name == "tokeval") return cls == 4;
@@ -75,6 +83,7 @@ struct Interp {
             if (op_name == "overwrite" || op_name == "getlist") return cls >= 13;
             if (op_name == "toarray") return cls >= 7 && cls <= 12;
             if (op_name == "iter" || op_name == "move") return cls >= 7;
+            if (op_name == "drain") return cls >= 7 && cls <= 9;
             return true;
         };
         {
@@ -82,7 +91,7 @@ struct Interp {
             for (int k = 0; k < 6 && found < 0; k++) { int s2 = (a + k) % 6; if (ob_exists(s2) && want(n, ob_cls(s2))) found = s2; }
             if (found < 0) {
                 static const int dflt[] = {4, 5, 0, 13, 7, 9};
-                int cls2 = n == "tokeval" ? 4 : n == "urlset" ? 5 : (n == "sub" || n == "subptr") ? (int)(op.i(1) & 1) * 2 : (n == "overwrite" || n == "getlist") ? 13 + (int)(((op.i(1) % 3) + 3) % 3) : n == "toarray" ? 10 + (int)(((op.i(1) % 3) + 3) % 3) : (n == "iter" || n == "move") ? 7 + (int)(((op.i(2) % 9) + 9) % 9) : -1;
+                int cls2 = n == "tokeval" ? 4 : n == "urlset" ? 5 : (n == "sub" || n == "subptr") ? (int)(op.i(1) & 1) * 2 : (n == "overwrite" || n == "getlist") ? 13 + (int)(((op.i(1) % 3) + 3) % 3) : n == "toarray" ? 10 + (int)(((op.i(1) % 3) + 3) % 3) : (n == "iter" || n == "move") ? 7 + (int)(((op.i(2) % 9) + 9) % 9) : n == "drain" ? 7 + (int)(((op.i(2) % 3) + 3) % 3) : -1;
                 (void)dflt;
                 if (cls2 < 0) { if (!ob_exists(a)) return; found = a; }
                 else {
@@ -113,6 +122,7 @@ struct Interp {
         if (n == "getlist") { int b = S(op.i(1)); if (b == a) return; if (LA(c06_getlist(a, (int)(((op.i(2) % 3) + 3) % 3), b, (int)(((op.i(3) % 4) + 4) % 4)))) { ctx.label("edge:get_keys/values/pairs-result"); transfers++; } return; }
         if (n == "iter") { if (LA(c06_iter(a, (int)(op.i(1) & 7)))) ctx.label("edge:iterator"); return; }
         if (n == "overwrite") { int r = LA(c06_overwrite(a, W(op).c_str())); VT_CHECK(ctx, r != -1, "mismatch", "overwrite:" << cn << "; set() on an existing key claimed the key was new"); if (r == 1) { ctx.label("edge:map-value-overwritten"); transfers++; } return; }
+        if (n == "drain") { int r = LA(c06_drain_refill(a, (int)(op.i(1) & 3), W(op).c_str())); VT_CHECK(ctx, r != -1, "mismatch", "drain-refill:" << cn << "; a list emptied element by element and filled again does not hold its two new elements"); if (r == 1) { ctx.label("edge:list-drained-and-refilled"); transfers++; } return; }
         if (n == "urlset") { if (LA(c06_url_set(a, (int)(op.i(1) & 7), W(op).c_str()))) ctx.label("edge:url-setter-replaces-component"); return; }
         if (n == "tokeval") { int r = LA(c06_tok_eval(a)); VT_CHECK(ctx, r != -1, "mismatch", "tok_eval; eval returned FALSE"); if (r == 1) ctx.label("edge:tok-evaluated-again"); return; }
         if (n == "done" || n == "reinit") {
@@ -151,7 +161,9 @@ rc::Gen<Op> gen_op() {
         if (k < 70) return mk("toarray", {a});
         if (k < 77) return mk("getlist", {a, *range(0, 5), *range(0, 2), *range(0, 3)});
         if (k < 80) return mk("iter", {a, *range(0, 7)});
-        if (k < 84) return mk("overwrite", {a}, {w});
+        if (k < 82) return mk("overwrite", {a}, {w});
+        if (k < 83) return mk("refused", {a, *range(0, 1)}, {w});
+        if (k < 84) return mk("drain", {a, *range(0, 3), *range(0, 2)}, {w});
         if (k < 86) return mk("urlset", {a, *range(0, 6)}, {w});
         if (k < 88) return mk("tokeval", {a});
         if (k < 92) return mk("done", {a}, {w});
